@@ -32,6 +32,14 @@ and asked again.  A profile, table or parameter remembered from an earlier
 function (module-level memo, mutable default, class attribute, id() reuse)
 shows up only there.  The case holds the whole sequence and what was built
 before it, so its replay rebuilds the history in a fresh process.
+
+Parameter types: the corner / random sets are also built from the dictionary that yaml.safe_load makes of their
+decimal texts (name suffix @yaml) - `theta_s: 1`, `sd: 2`, `b: 20`, `psi_s: -1`, `Ksmacz0: 7`, `alpha: 3`,
+`zeta_max_cm: 0` arrive as Python ints - and judged by the same oracle on the float values; a number written
+like `1e-01` is a string for YAML 1.1 and may be refused, never answered wrongly.  The caller's array: every
+float64 array of levels handed to a function is compared bit-for-bit with a pristine copy afterwards and
+handed over a second time (writable, read-only, strided and reversed views; arrays holding a level above the
+ceiling are refused every time).
 """
 import concurrent.futures as cf
 import hashlib
@@ -44,6 +52,7 @@ import warnings
 from fractions import Fraction as F
 
 import numpy as np
+import yaml
 
 from harness import common as C
 from harness import gen_hydraulic as H
@@ -68,23 +77,53 @@ def fr(p):
 _BUILT = []     # every parameter set handed to the factory by this process, in order
 
 
-def impl_sy(p):
+SY_FIELDS = ('sd', 'theta_s', 'b', 'psi_s')
+
+
+def sy_yaml_text(p):
+    """The specific-yield section of a parameter file holding the decimal texts of p as they are."""
+    return 'type: peatclsm\n' + ''.join('%s: %s\n' % (k, p[k]) for k in SY_FIELDS)
+
+
+def sy_yaml_types(p):
+    """Python types yaml.safe_load gives for the texts of p ('1' -> int, '1.0' -> float, '1e-05' -> str)."""
+    return {k: H.yaml_type(str(p[k])) for k in SY_FIELDS}
+
+
+def impl_sy(p, how='float'):
+    """how='float': every parameter as a Python float; how='yaml': the parameters dictionary yaml.safe_load makes
+    of the texts of p, as the commands hand it to the factory (whole numbers are Python ints there)."""
     import spowtd.specific_yield as sy
-    _BUILT.append(dict(p))
+    _BUILT.append(dict(p, _how=how) if how != 'float' else dict(p))
     with warnings.catch_warnings():
         warnings.simplefilter('ignore')
+        if how == 'yaml':
+            return sy.create_specific_yield_function(yaml.safe_load(sy_yaml_text(p)))
         return sy.create_specific_yield_function(
             dict(type='peatclsm', sd=float(F(p['sd'])), theta_s=float(F(p['theta_s'])), b=float(F(p['b'])),
                  psi_s=float(F(p['psi_s']))))
 
 
-def impl_T(Ks, alpha, zmax, arg):
+def rebuild(q):
+    """Build again what _BUILT recorded (replay of a history)."""
+    return impl_sy({k: v for k, v in q.items() if k != '_how'}, q.get('_how', 'float'))
+
+
+def T_function(Ks, alpha, zmax, texts=None):
     import spowtd.transmissivity as tm
+    if texts is not None:   # the dictionary yaml.safe_load makes of a parameter text
+        params = yaml.safe_load('type: peatclsm\nKsmacz0: %s\nalpha: %s\nzeta_max_cm: %s\n'
+                                % (texts['Ks'], texts['alpha'], texts['zmax']))
+    else:
+        params = dict(type='peatclsm', Ksmacz0=Ks, alpha=alpha, zeta_max_cm=zmax)
+    return tm.create_transmissivity_function(params)
+
+
+def impl_T(Ks, alpha, zmax, arg, texts=None):
     try:
         with warnings.catch_warnings():
             warnings.simplefilter('ignore')
-            T = tm.create_transmissivity_function(dict(type='peatclsm', Ksmacz0=Ks, alpha=alpha, zeta_max_cm=zmax))
-            return ('ok', T(arg))
+            return ('ok', T_function(Ks, alpha, zmax, texts)(arg))
     except Exception as e:  # pylint: disable=broad-except
         return ('err', C.err_of(e))
 
@@ -187,11 +226,20 @@ def check_sy(psets, out, label, knots_for, seed=0):
     for n, (name, p) in enumerate(psets):
         # what this process built before belongs to the failing input (replay rebuilds it first)
         pj = dict(level='sy', name=name, p=p, built_before=list(_BUILT))
-        out.count('params:' + name.split('#')[0])
+        out.count('params:' + name.split('#')[0] + ('@yaml' if name.endswith('@yaml') else ''))
+        how = 'yaml' if name.endswith('@yaml') else 'float'
+        if how == 'yaml':
+            pj['knots'] = []        # judged by the oracle alone (the replay does not certify tables for it)
+            for k, t in sy_yaml_types(p).items():
+                out.count('yaml-type:%s=%s' % (k, t))
         try:
-            S = impl_sy(p)
+            S = impl_sy(p, how)
         except Exception as e:  # pylint: disable=broad-except
             out.evaluations += 1
+            if name.startswith('oracle-str'):
+                # a number the YAML loader hands over as a string (`1e-01`): a refusal is not a wrong answer
+                out.count('str-typed:refused:' + type(e).__name__)
+                continue
             out.violation('oracle', 'PeatclsmSpecificYield raises %s: %s for admissible parameters %s'
                           % (type(e).__name__, e, p), case=pj)
             continue
@@ -224,6 +272,20 @@ def check_sy(psets, out, label, knots_for, seed=0):
         got = np.asarray(S(np.array(zs)), dtype=float)
         ref = np.interp(zs, knots_mm, vals)
         out.evaluations += len(zs)
+        # the caller keeps its array: unchanged afterwards (bit for bit) and the same answer the second time
+        for mode in H.ARRAY_MODES:
+            results, modified = H.call_twice(S, zs, mode)
+            out.count('sy-array-kept:' + mode)
+            if modified:
+                out.violation('oracle', 'the caller\'s levels were modified: the float64 array (%s) handed to the '
+                              'specific-yield function differs from its pristine copy afterwards; parameters %s'
+                              % (mode, p), case=pj)
+            for n, (st, arr) in enumerate(results, 1):
+                if st != 'ok' or arr.shape != got.shape or not np.array_equal(arr, got):
+                    out.violation('oracle', 'call number %d of the specific-yield function with the same float64 array '
+                                  '(%s) gives %s; a fresh array of these levels gives %s; parameters %s'
+                                  % (n, mode, arr, got, p), case=pj)
+                    break
         for z, g, r in zip(zs, got, ref):
             if not abs(g - r) <= 1e-12:
                 out.violation('oracle', 'specific yield at %r mm is %r, linear interpolation of the tabulated values '
@@ -309,6 +371,86 @@ def gen_T_cases(rng, count):
     return cases
 
 
+T_TEXT_STYLES = ('int', 'int', 'dump', 'pest', 'dot0')
+
+
+def gen_T_typed_cases(rng, count):
+    """(Ksmacz0, alpha, zeta_max_cm) written the ways a parameter file may write them - whole numbers without a
+    dot arrive as Python ints (`Ksmacz0: 7`, `alpha: 3`, `zeta_max_cm: 0`) - and levels incl. exactly 0.0, -0.0,
+    Python ints and integer arrays; judged on the float values by the same oracle and models."""
+    cases = []
+    for k in range(count):
+        Ks = float(rng.choice([1, 7, 20, 100000, 7.3, 0.0001, 28]))
+        alpha = float(rng.choice([3, 2, 20, 7, 7.4, 1.5]))
+        zmax = float(rng.choice([0, 1, -1, 5, 12, 0, 1, 2.5]))
+        top = 10 * zmax
+        kind = k % 6
+        if kind == 0:
+            z = top                                   # at the ceiling
+        elif kind == 1:
+            z = top + rng.choice([1.0, 3.0, 20.0, 1000.0])   # above: refused
+        elif kind == 2:
+            z = rng.choice([0.0, -0.0]) if zmax >= 0 else top - 1.0
+        else:
+            z = float(round(top - H.loguniform(rng, 1.0, 3000.0)))
+        texts = dict(Ks=H.yaml_number_text(Ks, rng.choice(T_TEXT_STYLES)),
+                     alpha=H.yaml_number_text(alpha, rng.choice(T_TEXT_STYLES)),
+                     zmax=H.yaml_number_text(zmax, rng.choice(T_TEXT_STYLES)))
+        cases.append(dict(Ks=Ks, alpha=alpha, zmax=zmax, z=z, texts=texts,
+                          form=rng.choice(['float', 'np', 'array', 'int', 'intarray'])))
+    return cases
+
+
+def gen_T_array_cases(rng, count):
+    """One float64 array of levels per case, kept by the caller and handed over twice (H.call_twice): levels below
+    the ceiling; every third case holds one level above it (refused, every time)."""
+    cases = []
+    for k in range(count):
+        Ks = H.round_sig(H.loguniform(rng, 1e-4, 1e5), 3)
+        alpha = rng.choice([3, 2, 1.5, 7.4, 20.0, 1.25, 3.0])
+        zmax = rng.choice([1.0, 0.0, 5.0, -3.5, 12.25, 1.0, 0.3, 2.3])
+        top = 10 * zmax
+        levels = [round(top - H.loguniform(rng, 0.1, 3000.0), 3) for _ in range(rng.choice([1, 3, 6]))]
+        levels = [z for z in levels if z < top - 0.05] or [top - 25.0]
+        if k % 4 == 1 and top > 0.5:
+            levels.append(0.0)
+        if k % 3 == 2:
+            levels.insert(rng.randrange(len(levels) + 1), top + rng.choice([0.5, 3.0, 20.0, 95.0]))
+        cases.append(dict(level='T-array', Ks=Ks, alpha=alpha, zmax=zmax, levels=levels,
+                          mode=H.ARRAY_MODES[k % len(H.ARRAY_MODES)]))
+    return cases
+
+
+def check_T_arrays(cases, out):
+    for c in cases:
+        Ks, alpha, zmax, levels = c['Ks'], c['alpha'], c['zmax'], c['levels']
+        want = [T_oracle(float(Ks), float(alpha), float(zmax), float(z)) for z in levels]
+        refused = any(st == 'err' for st, _ in want)
+        with warnings.catch_warnings():
+            warnings.simplefilter('ignore')
+            T = T_function(Ks, alpha, zmax)
+        results, modified = H.call_twice(T, levels, c['mode'])
+        out.evaluations += len(results)
+        out.count('T-array-kept:%s:%s' % (c['mode'], 'holds-a-refused-level' if refused else 'values'))
+        who = ('PEATCLSM transmissivity (Ksmacz0=%r alpha=%r zeta_max_cm=%r), one float64 array (%s) of levels %r mm '
+               'kept by the caller' % (Ks, alpha, zmax, c['mode'], levels))
+        if modified:
+            out.violation('oracle', 'the caller\'s levels were modified: %s differs from its pristine copy after the '
+                          'calls' % who, case=c)
+        for n, (st, arr) in enumerate(results, 1):
+            if refused:
+                good = (st, arr) == ('err', 'EValue')
+            else:
+                good = st == 'ok' and len(arr) == len(levels) and all(
+                    abs(float(v) - ov) <= (float(T_tol(alpha, zmax, z)) + 1e-14) * abs(ov)
+                    for v, (_, ov), z in zip(arr, want, levels))
+            if not good:
+                out.violation('oracle', '%s: call number %d gives %s %s; the published formula gives %s'
+                              % (who, n, st, arr, 'a refusal (ValueError: a level lies above the ceiling)' if refused
+                                 else [ov for _, ov in want]), case=c)
+                break
+
+
 FLOAT_PREAMBLE = ('From Coq Require Import PrimFloat Uint63 List Bool.\nFrom Spowtd Require Import Model.Util '
                   'Model.PeatclsmFloat.\nImport ListNotations.\n')
 
@@ -320,10 +462,16 @@ def check_T(cases, out, label):
         Ks, alpha, zmax, z = c['Ks'], c['alpha'], c['zmax'], c['z']
         out.evaluations += 1
         jc = dict(level='T', **c)
-        arg = np.float64(z) if c['form'] == 'np' else np.array([z, z - 7.0]) if c['form'] == 'array' else float(z)
-        st, v = impl_T(Ks, alpha, zmax, arg)
-        if st == 'ok' and c['form'] == 'array':
-            st2, v2 = impl_T(Ks, alpha, zmax, float(z))
+        texts = c.get('texts')
+        form = c['form'] if float(z).is_integer() or c['form'] not in ('int', 'intarray') else 'float'
+        arg = (np.float64(z) if form == 'np' else np.array([z, z - 7.0]) if form == 'array' else
+               int(z) if form == 'int' else np.array([int(z), int(z) - 7]) if form == 'intarray' else float(z))
+        if texts:
+            out.count('T-yaml-types:' + ','.join(H.yaml_type(texts[k]) for k in ('Ks', 'alpha', 'zmax')))
+            out.count('T-arg:' + form)
+        st, v = impl_T(Ks, alpha, zmax, arg, texts)
+        if st == 'ok' and form in ('array', 'intarray'):
+            st2, v2 = impl_T(Ks, alpha, zmax, float(z), texts)
             if st2 != 'ok' or not (float(v2) == float(v[0]) or abs(float(v2) - float(v[0])) <= 1e-14 * abs(float(v2))):   # numpy's array and scalar pow differ by a few ulp
                 out.violation('oracle', 'array and scalar transmissivity differ at %r: %r vs %r' % (z, v, v2), case=jc)
             v = v[0]
@@ -696,11 +844,28 @@ def run(ctx, out):
     ro = C.rng_for(seed, PROP, 'oracle-sets')
     psets += corner_psets() + [('oracle#%d' % k, (wide_pset if k % 3 == 0 else random_pset)(ro))
                                for k in range(n_oracle)]
-    check_sy(psets, out, 'sy', knots_for, seed)
+    # the same sets as yaml.safe_load hands them to the factory, wherever that differs from all-floats (`theta_s: 1`,
+    # `sd: 2`, `b: 20`, `psi_s: -1` are Python ints there); oracle only (knots_for gives [] for these names in the
+    # quick tier, and the names start with corner / oracle otherwise)
+    twins = [(n + '@yaml', p) for n, p in psets
+             if (n.startswith('corner') or n.startswith('oracle')) and set(sy_yaml_types(p).values()) != {'float'}]
+    rt = C.rng_for(seed, PROP, 'yaml-typed')
+    for k in range(4 if tier == 'quick' else 24):      # whole-number values at the ends of the calibration bounds
+        q = random_pset(rt)
+        for f, v in rt.sample([('theta_s', '1'), ('sd', rt.choice(['1', '2'])), ('b', rt.choice(['1', '2', '7', '20'])),
+                               ('psi_s', '-1')], rt.choice([1, 2, 4])):
+            q[f] = v
+        twins.append(('oracle-int#%d@yaml' % k, q))
+    # a number written like 1e-01 (no dot) is a string for yaml.safe_load: refused or answered rightly
+    twins += [('oracle-str#%d@yaml' % k, dict(PUBLISHED, **{f: v})) for k, (f, v) in enumerate(
+        [('sd', '1e-01'), ('theta_s', '9e-01'), ('b', '1e+01'), ('psi_s', '-1e-02')])]
+    check_sy(psets + twins, out, 'sy', knots_for, seed)
     boundary_probes(out)
     check_T([dict(Ks=PUBLISHED_T['Ksmacz0'], alpha=PUBLISHED_T['alpha'], zmax=PUBLISHED_T['zeta_max_cm'], z=float(z),
                   form='float') for z in (0.0, -10.0, -500.0, -1500.0, 10.0, 10.5)]
-            + gen_T_cases(rng, 200 if tier == 'quick' else 2000), out, 'T')
+            + gen_T_cases(rng, 200 if tier == 'quick' else 2000)
+            + gen_T_typed_cases(C.rng_for(seed, PROP, 'T-typed'), 60 if tier == 'quick' else 600), out, 'T')
+    check_T_arrays(gen_T_array_cases(C.rng_for(seed, PROP, 'T-array'), 48 if tier == 'quick' else 480), out)
     check_R_tables(out)
     out.rule = ('specific yield: parameter sets (published, one wide-sd set, the 16 corners of the PEST bounds, random '
                 'sets within the bounds; thorough adds more) x all 201 tabulated levels through the oracle; for the '
@@ -711,7 +876,13 @@ def run(ctx, out):
                 'Non-trivial: an enclosed knot with >= 2 unsaturated layers, or a finite transmissivity value; '
                 'distinct by parameters and level. History: sequences of 4-5 specific-yield functions built in one '
                 'process (same soil / different sd; same sd / one soil parameter changed) x 201 levels, and of 5 '
-                'transmissivity objects differing in one parameter x 6 common levels.')
+                'transmissivity objects differing in one parameter x 6 common levels. Added (own random streams, '
+                'oracle only): every corner / random set with a whole-number value once more as yaml.safe_load hands '
+                'it over (Python ints for `theta_s: 1`, `sd: 2`, `b: 20`, `psi_s: -1`), transmissivity parameters '
+                'and levels as ints / integer arrays / 0.0 / -0.0, numbers written like 1e-01 (strings for YAML 1.1: '
+                'refusal or the right value); each float64 array of levels kept by the caller, compared bit-for-bit '
+                'afterwards and handed over twice (writable, read-only, strided, reversed; with and without a '
+                'level above the ceiling).')
     out.samples = [dict(params=PUBLISHED, knots=[200, 100, 0]), dict(T=PUBLISHED_T, level_mm=-500.0)]
     out.assumptions += [
         'the R reference is transcribed, not executed (Rscript is not installed): Model sy_knot_R / T_R and the '
@@ -735,14 +906,16 @@ def replay(case, out):
     elif case['level'] == 'R':
         check_R_tables(out)
     elif case['level'] == 'T':
-        check_T([{k: case[k] for k in ('Ks', 'alpha', 'zmax', 'z', 'form')}], out, 'replay_T')
+        check_T([{k: case[k] for k in ('Ks', 'alpha', 'zmax', 'z', 'form', 'texts') if k in case}], out, 'replay_T')
+    elif case['level'] == 'T-array':
+        check_T_arrays([case], out)
     elif case.get('name') == 'sd-zero':
         boundary_probes(out)
     else:
         for q in case.get('built_before', []):
             try:
-                impl_sy(q)
+                rebuild(q)
             except Exception:  # pylint: disable=broad-except
                 pass
-        ks = case.get('knots') or [200, 100, 0]
+        ks = case['knots'] if case.get('knots') is not None else [200, 100, 0]
         check_sy([(case['name'], case['p'])], out, 'replay_sy', lambda name, p: ks, case.get('seed', 0))
